@@ -450,20 +450,23 @@ static int upipe_audio_split_set_flow_def(struct upipe *upipe,
     struct upipe_audio_split *split = upipe_audio_split_from_upipe(upipe);
     UBASE_RETURN(uref_flow_match_def(flow_def, "sound."))
     UBASE_RETURN(uref_sound_flow_match_planes(flow_def, 1, 1))
-    UBASE_RETURN(uref_sound_flow_get_sample_size(flow_def,
-                                                 &split->sample_size));
-    UBASE_RETURN(uref_sound_flow_get_channels(flow_def, &split->channels));
-    if (unlikely(!split->channels || split->channels > 64))
+    /* a refused flow definition must leave the previous one in force */
+    uint8_t sample_size, channels;
+    UBASE_RETURN(uref_sound_flow_get_sample_size(flow_def, &sample_size));
+    UBASE_RETURN(uref_sound_flow_get_channels(flow_def, &channels));
+    if (unlikely(!channels || channels > 64))
+        return UBASE_ERR_INVALID;
+    if (unlikely(!(sample_size / channels)))
         return UBASE_ERR_INVALID;
 
-    split->channel_sample_size = split->sample_size / split->channels;
-    if (unlikely(!split->channel_sample_size))
-        return UBASE_ERR_INVALID;
-
-    uref_free(split->flow_def);
-    if ((split->flow_def = uref_dup(flow_def)) == NULL) {
+    struct uref *flow_def_dup = uref_dup(flow_def);
+    if (unlikely(flow_def_dup == NULL))
         return UBASE_ERR_ALLOC;
-    }
+    uref_free(split->flow_def);
+    split->flow_def = flow_def_dup;
+    split->sample_size = sample_size;
+    split->channels = channels;
+    split->channel_sample_size = sample_size / channels;
 
     /* rebuild output flow definitions */
     struct uchain *uchain;
